@@ -44,6 +44,11 @@ type Connection struct {
 
 	// Finds the end of a request which is received in plaintext
 	plain plainRequest
+
+	// Events which are kept back while a request is served
+	eventMutex sync.Mutex
+	serving    bool
+	events     [][]byte
 }
 
 // plainRequest finds the end of a request which is received in plaintext.
@@ -235,6 +240,37 @@ func (con *Connection) Write(b []byte) (n int, err error) {
 	}
 
 	return n, err
+}
+
+// WriteEvent writes an event, i.e. a message which is not the response to a request.
+// While a request is served the event is kept back until the response was written: an
+// event must not be written into the middle of a response, and it must not be the
+// write which activates a cryptographer negotiated by the request.
+func (con *Connection) WriteEvent(b []byte) (int, error) {
+	con.eventMutex.Lock()
+	defer con.eventMutex.Unlock()
+
+	if con.serving {
+		con.events = append(con.events, append([]byte{}, b...))
+		return len(b), nil
+	}
+
+	return con.Write(b)
+}
+
+// SetServing is called with true when the server starts to read a request, and with
+// false after the response was written. The events which were kept back are written then.
+func (con *Connection) SetServing(serving bool) {
+	con.eventMutex.Lock()
+	defer con.eventMutex.Unlock()
+
+	con.serving = serving
+	if serving == false {
+		for _, b := range con.events {
+			con.Write(b)
+		}
+		con.events = nil
+	}
 }
 
 // Read reads bytes from the connection. The read bytes are decrypted when possible.
